@@ -112,5 +112,19 @@ theorem function_order_is_idempotent (l : List (Nat × Nat)) :
 example : sortBy (fun (a b : Nat × Nat) => decide (a.2 > b.2) || (a.2 == b.2 && decide (a.1 ≤ b.1))) [(0, 1), (1, 5), (2, 5)] =
     [(1, 5), (2, 5), (0, 1)] := by decide
 
+/-- reading a name section is idempotent: what `parse_name_section` applies of a name section, it
+    applies in full when it meets it again (the local-name prefix it kept is kept whole, nothing is
+    dropped a second time), and the in-range filter removes nothing from what it already let through -/
+theorem name_reading_is_idempotent (nF nY nT nM nG nE nD : Nat) (n : NamesM) :
+    appliedNames nF (appliedNames nF n) = appliedNames nF n ∧
+    inRangeNames nF nY nT nM nG nE nD (inRangeNames nF nY nT nM nG nE nD n) = inRangeNames nF nY nT nM nG nE nD n := by
+  constructor
+  · unfold appliedNames
+    by_cases h : (n.locals.takeWhile (·.1 < nF)).length = n.locals.length
+    · simp [h]
+    · simp only [h, if_false]
+      simp [takeWhile_idem]
+  · simp [inRangeNames, List.filter_filter]
+
 end C08
 end Walrus
